@@ -1,84 +1,310 @@
-"""C12 - geometric primitives and boxes obey their algebra, with no side effects (structural clauses)."""
+"""C12 - geometric primitives and boxes obey their algebra, with no side effects."""
 from __future__ import annotations
 import ast
-from .. import au, sym, order
+from .. import au
 from ..core import AnalysisError
 from ..rules import alias
+from ..rules import hh_laws as L
+from ..rules.hh_np import Unknown, Raised
 
 MODS = ["geometry.geometry", "geometry.rotations", "geometry.aabb", "geometry.vector", "utils.maths"]
 AABB = "geometry.aabb"
 GEO = "geometry.geometry"
+ROT = "geometry.rotations"
+VEC = "geometry.vector"
+MATHS = "utils.maths"
 
 EXPLANATION = (
-    "Static side-effect and predicate analysis of the primitive modules: every np.seterr is restored on all exits (or "
-    "replaced by np.errstate); no function mutates a non-receiver parameter or an alias of one (ownership grammar with "
-    "Vec(x) / np.asarray(x) / basic slices as views, flow-aware reaching definitions); a constructor that stores views of "
-    "its arguments has no method that mutates those fields in place; interval / sign predicates agree with their "
-    "specification under every ordering of their operands; min/max pairing of the box algebra. Structural necessary "
-    "conditions only - the numerical identities are not decided.")
+    "Two kinds of static analysis of the primitive modules (geometry.py, aabb.py, rotations.py, vector.py, utils/maths.py). "
+    "(1) Finite-model evaluation: the syntax tree of each primitive is evaluated by the checker's own evaluator (msa/rules/hh_eval.py, a "
+    "value model of python scalars and numpy arrays incl. views, dtypes and the error configuration - mouette is never imported or run) "
+    "on a finite table of literal inputs that realises every ordering of the operands the law distinguishes (corners / query point for the "
+    "box predicates and the box algebra, sign classes, an angle grid, integer and float vectors), and the result is compared with the law "
+    "of the property; during every evaluated call the arrays handed in and numpy's error configuration are watched. A disagreement is "
+    "reported with the input that shows it; a construct outside the modelled subset leaves the obligation undecided. "
+    "(2) Flow analyses over all functions of the modules: every np.seterr that changes the configuration is restored on all exits; "
+    "may-alias analysis (branches merged, loops iterated, helper functions summarised): no function writes into a parameter or a view of "
+    "one, no method updates in place a field that holds a view of a constructor argument.")
 
 RULES = {
-    "C12-E1": "numpy's floating-point error configuration is restored on every exit of a function that changes it (saved value in try/finally) or np.errstate is used",
-    "C12-A1": "no function of the primitive modules mutates a parameter other than its receiver, nor an alias (view) of one",
-    "C12-A2": "a field that holds a view of a constructor argument is never mutated in place by a method",
-    "C12-O1": "contains_point is half-open, do_intersect closed on both sides, sign/sign0 piecewise constants, angle folding threshold pi",
-    "C12-R1": "rotate_2d and rotate_around_axis are linear maps whose matrix, extracted from the source as polynomials in (cos, sin, axis), "
-              "is orthogonal with determinant 1 and fixes the axis, identically modulo cos^2+sin^2=1 and |axis|=1 (a polynomial proof for all inputs)",
-    "C12-X1": "closed-form primitives of geometry.py are the textbook polynomials / angle forms (cross, det_2x2, det_3x3, quad_area, "
-              "aspect_ratio, triangle_area, angle primitives, right-handed face_basis) - rule shared with C07-X1, re-run here because the "
-              "statement of C12 names these identities",
-    "C12-B1": "box algebra: intersection = (max of minima, min of maxima), union = (min of minima, max of maxima), projection clamps, distance uses max(mini - p, p - maxi, 0)",
+    "C12-E1": "numpy's floating-point error configuration is restored on every exit of a function that changes it (saved value re-installed in "
+              "a finally clause) or np.errstate is used; evaluated: the configuration after Vec.normalized / cotan / face_basis / "
+              "rotate_around_axis equals the one before, on return and when the call raises",
+    "C12-A1": "no function of the primitive modules writes into a parameter other than its receiver, nor into a view of one (may-alias data "
+              "flow incl. helper summaries); evaluated: the arrays handed to the primitives are unchanged after the call",
+    "C12-A2": "a field that holds a view of a constructor argument is never updated in place by a method; the result of a binary box "
+              "operation is a new box (padding it leaves the operands unchanged)",
+    "C12-O1": "contains_point is lo <= pt < hi component-wise, do_intersect is `overlap extent >= 0 on every axis` (all orderings of the corners, "
+              "dimensions 1-3), sign / sign0 are the documented piecewise constants, principal_angle / angle_diff are congruent modulo 2*pi "
+              "and land in [-pi, pi], roots(c, n) raised to n give back the (unit) input",
+    "C12-R1": "rotate_2d and rotate_around_axis agree with the rotation matrix / Rodrigues' formula on integer and float vectors (isometry, axis "
+              "fixed, angles add up), axis_rot_from_z maps the z axis onto its argument",
+    "C12-X1": "closed-form primitives of geometry.py and vector.py: cross / det_2x2 / det_3x3 against exact integer arithmetic, norms, areas, "
+              "three-point angles in [0, pi] and symmetric, signed angles antisymmetric, cotan = 1 / tan(angle), right-handed orthonormal face_basis, "
+              "equidistant circumcenter, aspect ratio, line / segment / plane helpers",
+    "C12-B1": "box algebra on every ordering of the corners: intersection = (max of minima, min of maxima), union = (min of minima, max of maxima), "
+              "project = clamp into the closed box, distance = norm (l2 / l1 / linf) of the excess max(lo - p, p - hi, 0), of_points / of_mesh tight, "
+              "pad, span, center, unit_cube, infinite",
 }
 
-INPLACE_METHODS = {"sort", "fill", "normalize", "resize", "put", "itemset", "append", "extend", "clear", "pop", "remove",
-                   "insert", "update", "reverse", "setflags", "partition", "byteswap"}
 SCALAR_ANN = {"float", "int", "bool", "str", "complex"}
+
+#: (rule, module, anchor function, what the law says [construct text of a finding], consequence, law)
+LAWS = [
+    ("C12-O1", AABB, "AABB.contains_point", "contains_point is not lo <= pt < hi component-wise",
+     "documented convention: inclusive at the minimum corner, exclusive at the maximum corner", L.law_contains_point),
+    ("C12-O1", AABB, "AABB.do_intersect", "do_intersect is not `the componentwise overlap has a non-negative extent in every dimension`",
+     "two boxes intersect exactly when max(minima) <= min(maxima) on every axis (touching boxes intersect)", L.law_binary("do_intersect")),
+    ("C12-B1", AABB, "AABB.intersection", "intersection is not (max of the two minima, min of the two maxima)",
+     "the intersection is the componentwise overlap of the operands", L.law_binary("intersection")),
+    ("C12-B1", AABB, "AABB.union", "union is not (min of the two minima, max of the two maxima)",
+     "the union must contain both operands and be the smallest such box", L.law_binary("union")),
+    ("C12-B1", AABB, "AABB.intersection", "the operator & is not the intersection", "b1 & b2 is documented as AABB.intersection(b1, b2)",
+     L.law_binary("intersection", "__and__")),
+    ("C12-B1", AABB, "AABB.union", "the operator | is not the union", "b1 | b2 is documented as AABB.union(b1, b2)", L.law_binary("union", "__or__")),
+    ("C12-A2", AABB, "AABB.union", "union returns a box that shares its state with an operand",
+     "no function changes a box other than the one it is documented to modify: pad() on the result must leave the operands alone",
+     L.law_result_is_new_box("union")),
+    ("C12-A2", AABB, "AABB.intersection", "intersection returns a box that shares its state with an operand",
+     "no function changes a box other than the one it is documented to modify: pad() on the result must leave the operands alone",
+     L.law_result_is_new_box("intersection")),
+    ("C12-B1", AABB, "AABB.project", "project is not the clamp max(mini, min(maxi, pt))", "the projection of a point must lie in the closed box and be its closest point",
+     L.law_project),
+    ("C12-B1", AABB, "AABB.distance", "distance is not the norm of max(mini - pt, pt - maxi, 0)",
+     "a contained point is at distance zero and the distance is realised by the projection, in each norm", L.law_distance),
+    ("C12-B1", AABB, "AABB.contains_point", "contains_point / distance / of_points do not accept a point (set) given as a plain list",
+     "arguments go through Vec(...) / np.array(...): any iterable is a valid input", L.law_iterables),
+    ("C12-B1", AABB, "AABB.pad", "pad does not move the two corners outwards by max(pad, 0), or changes another box",
+     "pad enlarges the box it is called on and nothing else (the constructor keeps views of the caller's arrays)", L.law_pad),
+    ("C12-B1", AABB, "AABB.of_points", "of_points is not AABB(min(points, axis=0) - pad, max(points, axis=0) + pad)", "the box of a point set must be tight",
+     L.law_of_points),
+    ("C12-B1", AABB, "AABB.of_mesh", "of_mesh is not the tight box of the vertices (+/- padding)", "the box of a point set must be tight", L.law_of_mesh),
+    ("C12-B1", AABB, "AABB.span", "mini / maxi / dim / span / center / unit_cube / infinite are not the documented values", "", L.law_accessors),
+    ("C12-O1", GEO, "sign", "sign(x) is not the documented piecewise constant", "-1 / 0 / 1", L.law_sign("sign", lambda x: (x > 0) - (x < 0))),
+    ("C12-O1", GEO, "sign0", "sign0(x) is not the documented piecewise constant", "1 for x >= 0, -1 otherwise", L.law_sign("sign0", lambda x: 1 if x >= 0 else -1)),
+    ("C12-O1", MATHS, "principal_angle", "principal_angle is not congruent to its argument modulo 2*pi inside [-pi, pi]",
+     "angle reduction must be congruent modulo 2*pi and land in [-pi, pi]", L.law_principal_angle),
+    ("C12-O1", MATHS, "angle_diff", "angle_diff is not congruent to a - b modulo 2*pi inside [-pi, pi]",
+     "angle reduction must be congruent modulo 2*pi and land in [-pi, pi]", L.law_angle_diff),
+    ("C12-O1", MATHS, "roots", "roots(c, n) are not the n distinct n-th roots of the (unit) input", "n-th roots raised to n give back the unit input", L.law_roots),
+    ("C12-X1", MATHS, "solve_quadratic", "solve_quadratic does not return the real roots of A x^2 + B x + C", "", L.law_quadratic),
+    ("C12-X1", GEO, "cross", "cross: components are not (A1*B2-A2*B1, A2*B0-A0*B2, A0*B1-A1*B0)",
+     "every normal, area and angle of the library goes through this cross product", L.law_cross),
+    ("C12-X1", GEO, "det_2x2", "det_2x2: the result is not A.x*B.y - A.y*B.x for array and complex arguments", "", L.law_det2),
+    ("C12-X1", GEO, "det_3x3", "det_3x3: the result is not the 3x3 determinant for a matrix / three columns", "", L.law_det3),
+    ("C12-X1", GEO, "norm", "norm / dot / distance / Vec.norm / Vec.dot are not the documented l2, l1, linf norms and dot product", "", L.law_norms),
+    ("C12-X1", VEC, "Vec.normalized", "Vec construction, accessors, normalized / normalize are not the documented values", "", L.law_vec),
+    ("C12-X1", GEO, "angle_3pts", "angle_3pts: not the angle at the middle point, in [0, pi], symmetric in the end points",
+     "corner angles are defined at the middle argument", L.law_angle_3pts),
+    ("C12-X1", GEO, "cotan", "cotan: not the cotangent of the angle at the middle point", "cotangent is the reciprocal tangent of the angle", L.law_cotan),
+    ("C12-X1", GEO, "signed_angle_2vec3D", "signed_angle_2vec3D / signed_angle_3pts / angle_2vec3D: not sign((V1 x V2).N) * atan2(|V1 x V2|, V1.V2)",
+     "signed angles are antisymmetric, their absolute value is the unsigned angle", L.law_signed_angle),
+    ("C12-X1", GEO, "angle_2vec2D", "angle_2vec2D: not the oriented angle from the first to the second vector (modulo 2*pi)", "", L.law_angle_2d),
+    ("C12-X1", GEO, "face_basis", "face_basis: not the right-handed frame X = AB/|AB|, Z = X x AC normalised, Y = Z x X",
+     "local face coordinates assume cross(X, Y) = Z = the face normal", L.law_face_basis),
+    ("C12-X1", GEO, "triangle_area", "triangle_area / triangle_area_2D / quad_area are not the areas", "", L.law_areas),
+    ("C12-X1", GEO, "circumcenter", "circumcenter: not equidistant from the three points in their plane", "circumcentres are equidistant", L.law_circumcenter),
+    ("C12-X1", GEO, "aspect_ratio", "aspect_ratio: not circumradius / (2 inradius)", "", L.law_aspect_ratio),
+    ("C12-X1", GEO, "intersect_2lines2D", "intersect_2lines2D / distance_to_segment2D / project_to_plane are not the documented constructions", "", L.law_lines),
+    ("C12-R1", ROT, "rotate_2d", "rotate_2d is not the rotation matrix [[cos, -sin], [sin, cos]] applied to its argument",
+     "rotations are isometries and compose additively, for every input vector (integer coordinates included)", L.law_rotate_2d),
+    ("C12-R1", ROT, "rotate_around_axis", "rotate_around_axis is not Rodrigues' rotation of (unit axis, angle) applied to its argument",
+     "rotations are isometries fixing their axis and composing additively, for every input vector (integer coordinates included)", L.law_rotate_axis),
+    ("C12-R1", ROT, "axis_rot_from_z", "axis_rot_from_z is not the rotation vector that maps the z axis onto its argument", "", L.law_axis_rot_from_z),
+    ("C12-E1", VEC, "Vec.normalized", "numpy's error configuration differs after a call of Vec.normalized / cotan / face_basis / rotate_around_axis",
+     "the configuration found on entry must be re-installed whether the call returns or raises", L.law_errstate),
+]
 
 
 def run(ctx):
     fr = alias.Freshness(ctx.repo)
+    ma = alias.MayAlias(ctx.repo, fr)
     e1_seterr(ctx)
-    a1_param_immutability(ctx, fr)
-    a2_borrowed_fields(ctx, fr)
-    o1_predicates(ctx)
-    b1_box_algebra(ctx)
-    r1_rotation_matrices(ctx)
-    x1_shared_primitives(ctx)
+    a1_param_immutability(ctx, ma)
+    a2_borrowed_fields(ctx, ma)
+    evaluate_laws(ctx)
+
+
+# ---------------------------------------------------------------------------- evaluated laws
+def evaluate_laws(ctx, laws=None):
+    strict = {"mouette." + m for m in MODS}
+    for rule, modname, qual, construct, what, law in (laws or LAWS):
+        fn = ctx.repo.func(modname, qual)          # a vanished public primitive: AnalysisError
+        site = ctx.site(modname, fn)
+        t = L.T(ctx.repo, strict)
+        try:
+            witness = law(t)
+        except Unknown as ex:
+            ctx.undecided(rule, site, f"{qual}: the law cannot be evaluated ({construct})", f"construct outside the evaluated subset: {ex}")
+            witness = "undecided"
+        except Raised as ex:
+            ctx.undecided(rule, site, f"{qual}: the evaluation raises on an input of the table ({construct})", f"{ex}")
+            witness = "undecided"
+        except Exception as ex:  # noqa  (a defect of the evaluator or a value of an unexpected type: never an alarm, never a crash)
+            ctx.undecided(rule, site, f"{qual}: the law cannot be evaluated ({construct})", f"evaluator gave up: {type(ex).__name__}: {ex}")
+            witness = "undecided"
+        if witness is None:
+            ctx.ok(rule, site, f"{qual}: {RULES[rule][:60]}... holds on the whole input table ({t.it.steps} evaluation steps)")
+        elif witness != "undecided":
+            ctx.fail(rule, site, construct, (what + "; " if what else "") + "witness: " + witness)
+        seen = set()
+        for eff in t.effects:
+            if eff[0] == "mutation":
+                _, name, label, detail = eff
+                key = (name, label)
+                if key in seen:
+                    continue
+                seen.add(key)
+                ctx.fail("C12-A1", site, f"{name or qual} changes {label}",
+                         f"evaluated on the input table: {detail}; no function may change the arrays passed to it "
+                         f"(Vec(x), np.asarray(x) and basic slices are views of x)")
+            elif eff[0] == "errstate" and rule != "C12-E1":
+                _, name, when, detail = eff
+                key = (name, "err")
+                if key in seen:
+                    continue
+                seen.add(key)
+                ctx.fail("C12-E1", site, f"{name or qual} leaves numpy's error configuration changed",
+                         f"evaluated on the input table ({when}): {detail}")
 
 
 # ---------------------------------------------------------------------------- E1
-def seterr_problems(fn):
-    """[(node, why)] for np.seterr calls of fn that are not restored on all exits."""
+def _is_seterr(c):
+    return au.call_tail(c) == "seterr"
+
+
+def _is_query(c):
+    return not c.args and not c.keywords
+
+
+def _restored_name(c):
+    """`np.seterr(**saved)` -> source of `saved`; `np.seterr(divide=s['divide'], over=s['over'], under=..., invalid=...)` -> source of s"""
+    for k in c.keywords:
+        if k.arg is None:
+            return au.src(k.value)
+    keys = {}
+    for k in c.keywords:
+        if isinstance(k.value, ast.Subscript) and isinstance(k.value.slice, ast.Constant) and k.value.slice.value == k.arg:
+            keys[k.arg] = au.src(k.value.value)
+    if set(keys) >= {"divide", "over", "under", "invalid"} and len(set(keys.values())) == 1:
+        return next(iter(keys.values()))
+    if c.args and len(c.args) == 1 and isinstance(c.args[0], ast.Name) and False:
+        return None
+    return None
+
+
+def _saved_names(fn):
+    """names / self attributes bound to the previous configuration: x = np.seterr(...), x = np.geterr(), (x := np.seterr(...))"""
+    out = {}
+    for n in au.walk(fn):
+        if isinstance(n, ast.Assign) and isinstance(n.value, ast.Call) and au.call_tail(n.value) in ("seterr", "geterr"):
+            for t in n.targets:
+                if isinstance(t, (ast.Name, ast.Attribute)):
+                    out[au.src(t)] = n
+        if isinstance(n, ast.NamedExpr) and isinstance(n.value, ast.Call) and au.call_tail(n.value) in ("seterr", "geterr"):
+            out[n.target.id] = n
+    return out
+
+
+def _finally_restores(tr, saved):
+    for c in au.calls(tr.finalbody):
+        if _is_seterr(c) and _restored_name(c) in saved:
+            return True
+    return False
+
+
+def _handler_restores_and_reraises(tr, saved):
+    """try: ... except <everything>: restore; raise  (followed by a restore on the normal path, checked by the caller)"""
+    for h in tr.handlers:
+        catches_all = h.type is None or au.src(h.type) in ("BaseException", "Exception")
+        if not catches_all:
+            continue
+        has_restore = any(_is_seterr(c) and _restored_name(c) in saved for c in au.calls(h.body))
+        reraises = bool(h.body) and isinstance(h.body[-1], ast.Raise) and h.body[-1].exc is None
+        if has_restore and reraises:
+            return True
+    return False
+
+
+def _trivial(st):
+    if isinstance(st, ast.Pass):
+        return True
+    if isinstance(st, ast.Expr) and isinstance(st.value, ast.Constant):
+        return True
+    if isinstance(st, (ast.Assign, ast.AnnAssign)) and isinstance(getattr(st, "value", None), (ast.Constant, ast.Name)) \
+            and all(isinstance(t, ast.Name) for t in au.assign_targets(st)):
+        return True
+    return False
+
+
+def seterr_verdicts(fn, cls=None):
+    """[(call node, 'ok' | 'fail' | 'undecided', why)] for the np.seterr calls of fn that change the configuration"""
     out = []
-    calls = [c for c in au.calls(fn) if au.call_tail(c) == "seterr"]
+    calls = [c for c in au.calls(fn) if _is_seterr(c) and not _is_query(c)]
     if not calls:
-        return out, 0
+        return out
+    saved = _saved_names(fn)
+    tries = [n for n in au.walk(fn) if isinstance(n, ast.Try)]
+    any_restoring_try = any(any(_is_seterr(c) for c in au.calls(t.finalbody + [s for h in t.handlers for s in h.body])) for t in tries)
     for c in calls:
         st = au.enclosing_stmt(c)
-        # restore call: np.seterr(**saved) in a finalbody
-        in_finally = any(isinstance(a, ast.Try) and any(st is s or any(st is x for x in au.stmts([s])) for s in a.finalbody)
-                         for a in au.ancestors(c))
-        if in_finally:
-            if not (c.keywords and any(k.arg is None for k in c.keywords)):
-                out.append((c, "the restore in `finally` does not re-install the saved configuration (np.seterr(**saved))"))
+        restored = _restored_name(c)
+        anc = list(au.ancestors(c))
+        in_finally = any(isinstance(a, ast.Try) and any(st is s for s in au.stmts(a.finalbody)) for a in anc)
+        in_handler = any(isinstance(a, ast.ExceptHandler) for a in anc)
+        if restored is not None and restored in saved:
+            # a restore of a saved configuration: never a leak by itself
             continue
-        # setting call: must save the old value and be followed by try/finally restoring it
-        saved = None
-        if isinstance(st, ast.Assign) and isinstance(st.targets[0], ast.Name) and st.value is c:
-            saved = st.targets[0].id
-        blk, _ = au.enclosing_block(st)
+        if restored is not None:
+            # re-installs something that is not a configuration saved in this function (a parameter: restore helper)
+            if restored in au.params(fn) or restored.split(".")[0] in ("self",):
+                continue
+            out.append((c, "undecided", f"np.seterr(**{restored}) re-installs a configuration of unknown origin"))
+            continue
+        if in_finally or in_handler:
+            out.append((c, "fail", "the restore does not re-install the saved configuration (np.seterr(**saved)): the configuration found on entry "
+                                   "is replaced by a fixed one"))
+            continue
+        # ---- a call that changes the configuration
         ok = False
-        if saved and blk:
+        # (a) inside the body of a try whose finally restores a configuration saved before
+        for a in anc:
+            if isinstance(a, ast.Try) and any(st is s for s in au.stmts(a.body)) and a.finalbody and _finally_restores(a, saved):
+                ok = True
+        # (b) followed (trivial statements apart) by a try whose finally restores
+        blk, owner = au.enclosing_block(st)
+        if not ok and blk:
             idx = [id(x) for x in blk].index(id(st))
-            nxt = blk[idx + 1] if idx + 1 < len(blk) else None
-            if isinstance(nxt, ast.Try) and nxt.finalbody:
-                for c2 in au.calls(nxt.finalbody):
-                    if au.call_tail(c2) == "seterr" and any(k.arg is None and au.src(k.value) == saved for k in c2.keywords):
+            j = idx + 1
+            while j < len(blk) and _trivial(blk[j]):
+                j += 1
+            nxt = blk[j] if j < len(blk) else None
+            if isinstance(nxt, ast.Try):
+                if nxt.finalbody and _finally_restores(nxt, saved):
+                    ok = True
+                elif _handler_restores_and_reraises(nxt, saved):
+                    rest = blk[j + 1:] + list(nxt.orelse)
+                    k = 0
+                    while k < len(rest) and _trivial(rest[k]):
+                        k += 1
+                    if k < len(rest) and any(_is_seterr(x) and _restored_name(x) in saved for x in au.calls(rest[k])):
                         ok = True
-        if not ok:
-            out.append((c, "np.seterr changes the process-wide error configuration and is not restored on every exit "
-                           "(previous value not saved / no try-finally)"))
-    return out, len(calls)
+        # (c) the previous configuration is handed to the caller (helper that switches the mode; its callers are checked)
+        if not ok and isinstance(st, ast.Return) and st.value is c:
+            ok = True
+        # (d) __enter__ of a context manager whose __exit__ restores the saved field
+        if not ok and cls is not None and fn.name == "__enter__" and isinstance(st, ast.Assign) and au.is_self_attr(st.targets[0]):
+            ex = next((m for m in cls.body if isinstance(m, ast.FunctionDef) and m.name == "__exit__"), None)
+            if ex is not None and any(_is_seterr(x) and _restored_name(x) == au.src(st.targets[0]) for x in au.calls(ex)):
+                ok = True
+        if ok:
+            out.append((c, "ok", "saved and restored on every exit"))
+        elif any_restoring_try:
+            out.append((c, "undecided", "np.seterr is followed by a try statement that restores something, in a layout the rule does not understand"))
+        else:
+            out.append((c, "fail", "np.seterr changes the process-wide error configuration and is not restored on every exit "
+                                   "(previous value not saved / no try-finally)"))
+    return out
 
 
 FIXTURE_E1 = """
@@ -87,40 +313,61 @@ def normalized(vec):
     out = vec / norm(vec)
     np.seterr(all='warn')
     return out
+def fine(vec):
+    old = np.seterr(all='raise')
+    try:
+        return vec / norm(vec)
+    finally:
+        np.seterr(**old)
+def skipped(vec):
+    old = np.seterr(all='raise')
+    out = vec / norm(vec)
+    np.seterr(**old)
+    return out
 """
+
+
+def _parented(src):
+    tree = ast.parse(src)
+    for n in ast.walk(tree):
+        for c in ast.iter_child_nodes(n):
+            c._parent = n
+    return tree
 
 
 def e1_seterr(ctx):
     repo = ctx.repo
-    fx = ast.parse(FIXTURE_E1).body[0]
-    for n in ast.walk(fx):
-        for c in ast.iter_child_nodes(n):
-            c._parent = n
-    probs, ncalls = seterr_problems(fx)
-    if len(probs) != 2:
-        raise AnalysisError("C12-E1 fixture: the seterr matcher did not fire on the built-in positive example")
+    fx = _parented(FIXTURE_E1).body
+    got = [[v for _, v, _ in seterr_verdicts(f)] for f in fx]
+    if got != [["fail", "fail"], ["ok"], ["fail"]]:
+        raise AnalysisError(f"C12-E1 fixture: the seterr matcher gives {got} on the built-in examples")
     mods = MODS if ctx.tier == "quick" else sorted(m[len("mouette."):] for m in repo.modules if m != "mouette")
     nfun = 0
     for modname in mods:
         mod = repo.module(modname)
+        owner = {}
+        for cq, cls in mod.classes.items():
+            for m in cls.body:
+                if isinstance(m, ast.FunctionDef):
+                    owner[id(m)] = cls
         for q, fn in sorted(mod.funcs.items()):
             nfun += 1
-            probs, ncalls = seterr_problems(fn)
-            site = ctx.site(mod.name, fn)
-            if not ncalls:
+            verdicts = seterr_verdicts(fn, owner.get(id(fn)))
+            if not verdicts:
                 continue
-            if not probs:
-                ctx.ok("C12-E1", site, f"{ncalls} seterr call(s), saved and restored in finally")
-            seen = False
-            for node, why in probs:
-                if seen:
-                    continue
-                seen = True
+            site = ctx.site(mod.name, fn)
+            bad = [v for v in verdicts if v[1] == "fail"]
+            und = [v for v in verdicts if v[1] == "undecided"]
+            if bad:
+                node, _, why = bad[0]
                 ctx.fail("C12-E1", ctx.site(mod.name, fn, node), f"{q}: np.seterr is not restored on all exits",
                          why + "; on success the caller's configuration is replaced, and when the guarded operation raises, "
                                "'raise' stays installed for the rest of the process")
-    ctx.ok("C12-E1", ctx.site("geometry.vector", repo.func("geometry.vector", "Vec.normalized")),
-           f"{nfun} functions scanned for np.seterr; built-in positive fixture matched")
+            elif und:
+                ctx.undecided("C12-E1", ctx.site(mod.name, fn, und[0][0]), f"{q}: np.seterr with a restore the rule cannot follow", und[0][2])
+            else:
+                ctx.ok("C12-E1", site, f"{len(verdicts)} np.seterr call(s) that change the configuration, saved and restored in finally")
+    ctx.ok("C12-E1", ctx.site(VEC, repo.func(VEC, "Vec.normalized")), f"{nfun} functions scanned for np.seterr; built-in fixtures matched")
 
 
 # ---------------------------------------------------------------------------- A1
@@ -139,96 +386,96 @@ def _array_like_param(fn, name):
     return False
 
 
-def param_mutations(fn, fr, skip_first_self=True):
-    """[(node, param, how)] mutations of parameters (or views of them) in fn."""
-    ps = au.params(fn)
-    recv = None
-    if skip_first_self and ps and ps[0] in ("self", "cls"):
-        recv, ps = ps[0], ps[1:]
+def _optional_buffer(fn, name):
+    """a parameter whose default is None and which the function tests against None: an optional output / working buffer the caller
+    opts into - writing into it is its documented purpose"""
+    a = fn.args
+    pos = a.posonlyargs + a.args
+    defaults = dict(zip([p.arg for p in pos[len(pos) - len(a.defaults):]], a.defaults))
+    defaults.update({p.arg: d for p, d in zip(a.kwonlyargs, a.kw_defaults) if d is not None})
+    d = defaults.get(name)
+    if not (isinstance(d, ast.Constant) and d.value is None):
+        return False
+    for n in au.walk(fn):
+        if isinstance(n, ast.Compare) and isinstance(n.left, ast.Name) and n.left.id == name and len(n.ops) == 1 \
+                and isinstance(n.ops[0], (ast.Is, ast.IsNot)) and isinstance(n.comparators[0], ast.Constant) and n.comparators[0].value is None:
+            return True
+    return False
+
+
+def _is_private(q, fn):
+    return "<locals>" in q or (fn.name.startswith("_") and not (fn.name.startswith("__") and fn.name.endswith("__")))
+
+
+def param_mutations(ma, mod, cls, fn):
+    """[(node, param, how)] writes into parameters (or views of them) in fn; the receiver, *args / **kwargs and optional buffers apart"""
+    ps = [x.arg for x in fn.args.posonlyargs + fn.args.args + fn.args.kwonlyargs]
+    decos = {au.src(d) for d in fn.decorator_list}
+    if ps and ps[0] in ("self", "cls") and "staticmethod" not in decos:
+        ps = ps[1:]
+    ps = [p for p in ps if not _optional_buffer(fn, p)]
     if not ps:
         return []
-    b = sym.Bindings(fn)
-    pset = set(ps)
-
-    def roots(name, at, depth=0):
-        """parameters whose storage `name` may share at node `at`."""
-        if depth > 6:
-            return set()
-        d = b.reaching(name, at)
-        if d is not None:
-            dst = b._last_def_stmt
-            out = set()
-            for a in fr.aliases(d):
-                out |= roots(a, dst, depth + 1) if a != name or True else set()
-            return out
-        if name in pset:
-            # the parameter itself, unless it was definitely rebound (reaching() would have found it)
-            return {name}
-        return set()
-
-    def target_roots(e, at):
-        out = set()
-        for a in fr.aliases(e):
-            out |= roots(a, at)
-        return out
+    a = alias.Analysis(ma, mod, cls, fn, {p: frozenset({(p, alias.WHOLE)}) for p in ps}).run()
     found = []
-    for st in au.stmts(fn.body):
-        if isinstance(st, ast.AugAssign):
-            t = st.target
-            if isinstance(t, ast.Name):
-                r = roots(t.id, st)
-                for p in r:
-                    if _array_like_param(fn, p):
-                        found.append((st, p, f"augmented assignment `{au.src(st)}` updates the array in place"))
-            elif isinstance(t, (ast.Subscript, ast.Attribute)):
-                for p in target_roots(t.value, st):
-                    found.append((st, p, f"`{au.src(st)}` writes into the argument"))
-        elif isinstance(st, (ast.Assign, ast.AnnAssign)):
-            for t in au.assign_targets(st):
-                for tt in ([t] if not isinstance(t, (ast.Tuple, ast.List)) else t.elts):
-                    if isinstance(tt, (ast.Subscript, ast.Attribute)) and not (recv and au.is_self_attr(tt, recv=recv)):
-                        for p in target_roots(tt.value, st):
-                            found.append((st, p, f"`{au.src(tt)} = ...` writes into the argument"))
-        for c in au.calls(st) if not isinstance(st, (ast.For, ast.While, ast.If, ast.Try, ast.With)) else []:
-            if isinstance(c.func, ast.Attribute) and c.func.attr in INPLACE_METHODS:
-                for p in target_roots(c.func.value, st):
-                    found.append((c, p, f"in-place method `{au.src(c)}`"))
+    for s in a.sinks:
+        if s.how[0] == "aug-name" and not _array_like_param(fn, s.root):
+            continue
+        found.append((s.node, s.root, s.how[1]))
     return found
 
 
 FIXTURE_A1 = """
-def f(pt, box, k: float):
+def f(pt, box, k: float, pts, buf=None, **kw):
     p = Vec(pt)
     p[0] = 0.
     q = np.array(pt)
     q[0] = 1.
     box.maxi += 1
     k += 1
+    n = pt.size
+    n += 1
+    if k:
+        r = pt.copy()
+    else:
+        r = np.zeros(3)
+    r[0] = 2
+    for row in pts:
+        row[0] = 0
+    if buf is None:
+        buf = np.zeros(3)
+    buf[0] = 1
+    kw.pop("x")
     pt = pt.copy()
     pt[1] = 2
 """
 
 
-def a1_param_immutability(ctx, fr):
+def a1_param_immutability(ctx, ma):
     repo = ctx.repo
-    fx = ast.parse(FIXTURE_A1).body[0]
-    for n in ast.walk(fx):
-        for c in ast.iter_child_nodes(n):
-            c._parent = n
-    got = sorted((p, getattr(node, "lineno", 0)) for node, p, how in param_mutations(fx, fr))
-    if got != [("box", 7), ("pt", 4)]:
-        raise AnalysisError(f"C12-A1 fixture: matcher found {got}, expected the two planted mutations only")
+    fx = _parented(FIXTURE_A1).body[0]
+    got = sorted((p, getattr(node, "lineno", 0)) for node, p, how in param_mutations(ma, repo.module(GEO), None, fx))
+    if got != [("box", 7), ("pt", 4), ("pts", 17)]:
+        raise AnalysisError(f"C12-A1 fixture: matcher found {got}, expected the three planted mutations only")
     n = 0
     for modname in MODS:
         mod = repo.module(modname)
+        owner = {}
+        for cq, cls in mod.classes.items():
+            for m in cls.body:
+                if isinstance(m, ast.FunctionDef):
+                    owner[id(m)] = cls
         for q, fn in sorted(mod.funcs.items()):
-            if "<locals>" in q:
-                continue
             if any(isinstance(d, ast.Attribute) and d.attr == "setter" for d in fn.decorator_list):
                 continue  # a property setter is documented to modify its receiver only; value param is read
             n += 1
-            muts = param_mutations(fn, fr)
             site = ctx.site(mod.name, fn)
+            if _is_private(q, fn):
+                # a private helper may fill a buffer its callers allocate: its writes are charged to the public functions that hand it
+                # one of their own parameters (helper summaries of the may-alias analysis)
+                ctx.ok("C12-A1", site, "private helper: writes are followed into its callers")
+                continue
+            muts = param_mutations(ma, mod, owner.get(id(fn)), fn)
             if not muts:
                 ctx.ok("C12-A1", site, "no parameter (or view of one) is written")
             seen = set()
@@ -238,11 +485,12 @@ def a1_param_immutability(ctx, fr):
                 seen.add(p)
                 ctx.fail("C12-A1", ctx.site(mod.name, fn, node), f"{q} mutates its argument `{p}`",
                          f"{how}: no function may change the arrays passed to it (Vec(x), np.asarray(x) and basic slices are views)")
-    ctx.require_count("C12-A1 functions", n, 60)
+    if n < 40:
+        raise AnalysisError(f"C12-A1: only {n} functions found in the primitive modules")
 
 
 # ---------------------------------------------------------------------------- A2
-def a2_borrowed_fields(ctx, fr):
+def a2_borrowed_fields(ctx, ma):
     repo = ctx.repo
     n_cls = 0
     for modname in MODS:
@@ -251,408 +499,47 @@ def a2_borrowed_fields(ctx, fr):
             init = next((st for st in cls.body if isinstance(st, ast.FunctionDef) and st.name == "__init__"), None)
             if init is None:
                 continue
-            ps = set(au.params(init, skip_self=True))
-            borrowed = {}
-            for st in au.stmts(init.body):
-                if isinstance(st, (ast.Assign, ast.AnnAssign)) and st.value is not None:
-                    for t in au.assign_targets(st):
-                        if au.is_self_attr(t) and fr.aliases(st.value) & ps:
-                            borrowed[t.attr] = st
-            if not borrowed:
-                continue
             n_cls += 1
+            ps = au.params(init, skip_self=True)
+            a = alias.Analysis(ma, mod, cls, init, {p: frozenset({(p, alias.WHOLE)}) for p in ps})
+            borrowed = {}
+
+            # fields bound to a view of a constructor argument on some path of __init__
+            class Rec(alias.Analysis):
+                def stmt(self, s, st):
+                    if isinstance(s, (ast.Assign, ast.AnnAssign)) and getattr(s, "value", None) is not None:
+                        for t in au.assign_targets(s):
+                            if au.is_self_attr(t) and any(k == alias.WHOLE for _, k in self.aliases(s.value, st)):
+                                borrowed[t.attr] = s
+                    return alias.Analysis.stmt(self, s, st)
+            Rec(ma, mod, cls, init, a.init).run()
+            if not borrowed:
+                ctx.ok("C12-A2", ctx.site(mod.name, init), f"{cq}.__init__ keeps no view of its arguments")
+                continue
+            props = {}
+            for m in cls.body:
+                if isinstance(m, ast.FunctionDef) and any(au.src(d) == "property" for d in m.decorator_list):
+                    rets = [s for s in au.stmts(m.body) if isinstance(s, ast.Return)]
+                    if len(rets) == 1 and au.is_self_attr(rets[0].value) and rets[0].value.attr in borrowed:
+                        props[m.name] = rets[0].value.attr
+            hits = {}
             for fn in [st for st in cls.body if isinstance(st, ast.FunctionDef) and st.name != "__init__"]:
-                for st in au.stmts(fn.body):
-                    hit = None
-                    if isinstance(st, ast.AugAssign):
-                        t = st.target
-                        base = t if au.is_self_attr(t) else (t.value if isinstance(t, (ast.Subscript, ast.Attribute)) else None)
-                        if base is not None and au.is_self_attr(base) and base.attr in borrowed:
-                            hit = base.attr
-                    elif isinstance(st, ast.Assign):
-                        for t in st.targets:
-                            if isinstance(t, (ast.Subscript,)) and au.is_self_attr(t.value) and t.value.attr in borrowed:
-                                hit = t.value.attr
-                    elif isinstance(st, ast.Expr) and isinstance(st.value, ast.Call) and isinstance(st.value.func, ast.Attribute) \
-                            and st.value.func.attr in INPLACE_METHODS and au.is_self_attr(st.value.func.value) \
-                            and st.value.func.value.attr in borrowed:
-                        hit = st.value.func.value.attr
-                    if hit:
-                        ctx.fail("C12-A2", ctx.site(mod.name, fn, st),
-                                 f"{cq}.{fn.name} updates self.{hit} in place while {cq}.__init__ stores a view of its argument there",
-                                 f"`{au.src(borrowed[hit])}` keeps a view (Vec(x) does not copy): `{au.src(st)}` changes the caller's "
-                                 f"array and every other box built from the same corner array (the k-d tree shares corners between "
-                                 f"parent and child boxes)")
+                decos = {au.src(d) for d in fn.decorator_list}
+                if "staticmethod" in decos or "classmethod" in decos or not au.params(fn) or au.params(fn)[0] != "self":
+                    continue
+                an = alias.Analysis(ma, mod, cls, fn, {}, field_roots={f: "self." + f for f in borrowed}, props=props).run()
+                for s in an.sinks:
+                    f = s.root[len("self."):]
+                    if s.root.startswith("self.") and f in borrowed and f not in hits:
+                        hits[f] = (fn, s)
             for f in sorted(borrowed):
-                if not any(x.rule == "C12-A2" and f"self.{f} " in x.construct for x in ctx.findings):
+                if f in hits:
+                    fn, s = hits[f]
+                    ctx.fail("C12-A2", ctx.site(mod.name, fn, s.node),
+                             f"{cq}.{fn.name} updates self.{f} in place while {cq}.__init__ stores a view of its argument there",
+                             f"`{au.src(borrowed[f])}` keeps a view (Vec(x) does not copy): {s.how[1]} changes the caller's "
+                             f"array and every other box built from the same corner array (the k-d tree shares corners between "
+                             f"parent and child boxes)")
+                else:
                     ctx.ok("C12-A2", ctx.site(mod.name, init), f"{cq}.{f} borrows a constructor argument and is never mutated in place")
-    ctx.require_count("C12-A2 classes storing views", n_cls, 1)
-
-
-# ---------------------------------------------------------------------------- O1
-def o1_predicates(ctx):
-    repo = ctx.repo
-    # contains_point
-    fn = repo.func(AABB, "AABB.contains_point")
-    site = ctx.site(AABB, fn)
-    pt = au.params(fn, skip_self=True)[0]
-    rets = [st for st in fn.body if isinstance(st, ast.Return)]
-
-    def strip_all(e):
-        # (a <= b).all() / np.all(a <= b)  -> a <= b
-        if isinstance(e, ast.Call) and au.call_tail(e) == "all":
-            if isinstance(e.func, ast.Attribute) and not e.args:
-                return e.func.value
-            if e.args:
-                return e.args[0]
-        return e
-
-    class Strip(ast.NodeTransformer):
-        def visit_Call(self, node):
-            self.generic_visit(node)
-            return strip_all(node)
-
-    def s_box(node):
-        t = au.src(node)
-        if t == pt:
-            return "pt"
-        if t in ("self._p1", "self.mini"):
-            return "lo"
-        if t in ("self._p2", "self.maxi"):
-            return "hi"
-        raise order.Unsupported(t)
-    if len(rets) != 1:
-        ctx.fail("C12-O1", site, "contains_point does not end in a single return", "")
-    else:
-        e = Strip().visit(sym.subst(rets[0].value, {}))
-        try:
-            w, n = order.compare(e, "lo <= pt and pt < hi", s_box)
-            ctx.check(w is None, "C12-O1", site, f"contains_point is `{au.src(rets[0].value)}`, not lo <= pt < hi component-wise",
-                      f"differs for {w}: documented convention is inclusive at the minimum, exclusive at the maximum",
-                      note=f"{n} orderings")
-        except order.Unsupported as ex:
-            ctx.fail("C12-O1", site, "contains_point uses an operand other than the point and the two corners", str(ex))
-    # do_intersect
-    fn = repo.func(AABB, "AABB.do_intersect")
-    site = ctx.site(AABB, fn)
-    b1, b2 = au.params(fn)[:2]
-    comp = [n for n in au.walk(fn) if isinstance(n, (ast.ListComp, ast.GeneratorExp))]
-
-    def s_int(node):
-        if isinstance(node, ast.Subscript):
-            node = node.value
-        t = au.src(node)
-        m = {f"{b1}.mini": "amin", f"{b1}._p1": "amin", f"{b1}.maxi": "amax", f"{b1}._p2": "amax",
-             f"{b2}.mini": "bmin", f"{b2}._p1": "bmin", f"{b2}.maxi": "bmax", f"{b2}._p2": "bmax"}
-        if t in m:
-            return m[t]
-        raise order.Unsupported(t)
-    if len(comp) != 1:
-        ctx.fail("C12-O1", site, "do_intersect no longer evaluates one predicate per axis", "")
-    else:
-        try:
-            w, n = order.compare(comp[0].elt, "amin <= bmax and amax >= bmin", s_int)
-            ctx.check(w is None, "C12-O1", site, f"per-axis intersection test `{au.src(comp[0].elt)}` is not amin <= bmax and amax >= bmin",
-                      f"differs for {w}: two boxes intersect exactly when their overlap has non-negative extent in every dimension",
-                      note=f"{n} orderings")
-        except order.Unsupported as ex:
-            ctx.fail("C12-O1", site, "do_intersect uses unexpected operands", str(ex))
-        g = comp[0].generators[0]
-        ok = isinstance(g.iter, ast.Call) and au.call_tail(g.iter) == "range" and au.src(g.iter.args[0]) in (f"{b1}.dim", f"{b2}.dim") \
-            and not g.ifs
-        ctx.check(ok, "C12-O1", site, "do_intersect does not test every axis", "")
-        r = [st for st in fn.body if isinstance(st, ast.Return)]
-        ok = r and isinstance(r[-1].value, ast.Call) and au.call_tail(r[-1].value) == "all"
-        ctx.check(bool(ok), "C12-O1", site, "do_intersect does not require the per-axis test on all axes (np.all)", "")
-    # sign / sign0
-    for name, spec in (("sign", {-1: -1, 0: 0, 1: 1}), ("sign0", {-1: -1, 0: 1, 1: 1})):
-        fn = repo.func(GEO, name)
-        site = ctx.site(GEO, fn)
-        x = au.params(fn)[0]
-        try:
-            f = order.return_formula(fn.body)
-        except order.Unsupported as ex:
-            ctx.fail("C12-O1", site, f"{name} is no longer an if/return chain", str(ex))
-            continue
-        pred = order.Pred(lambda node: "x" if au.src(node) == x else (_ for _ in ()).throw(order.Unsupported(au.src(node))))
-        bad = None
-        try:
-            for xv in (-1, 0, 1):
-                got = order.eval_formula(f, pred, {"x": xv}, leaf=lambda e, env: au.const(e))
-                if got != spec[xv]:
-                    bad = (xv, got)
-        except order.Unsupported as ex:
-            bad = ("unsupported", str(ex))
-        ctx.check(bad is None, "C12-O1", site, f"{name}(x) is not the documented piecewise constant",
-                  f"{name}({bad[0] if bad else ''}) evaluates to {bad[1] if bad else ''}", note="3 sign classes")
-    # principal_angle: b = a % (2*pi); if b > pi (or >=): b -= 2*pi
-    fn = repo.func("utils.maths", "principal_angle")
-    site = ctx.site("utils.maths", fn)
-    a = au.params(fn)[0]
-    import math
-    ok_mod = ok_fold = False
-    var = None
-    for st in fn.body:
-        if isinstance(st, ast.Assign) and isinstance(st.value, ast.BinOp) and isinstance(st.value.op, ast.Mod) \
-                and au.src(st.value.left) == a and abs((order.fold_const(st.value.right) or 0) - 2 * math.pi) < 1e-12:
-            ok_mod, var = True, st.targets[0].id
-        if isinstance(st, ast.If) and var and not st.orelse:
-            # `var > pi` in any spelling (pi < var, not var <= pi; >= accepted as well: the value pi itself may fold either way)
-            t, pol = au.strip_not(st.test)
-            big = None
-            if isinstance(t, ast.Compare) and len(t.ops) == 1:
-                l, r, op = t.left, t.comparators[0], type(t.ops[0])
-                if not pol:
-                    op = {ast.Lt: ast.GtE, ast.LtE: ast.Gt, ast.Gt: ast.LtE, ast.GtE: ast.Lt}.get(op)
-                if op in (ast.Lt, ast.LtE):
-                    l, r, op = r, l, ast.Gt
-                if op in (ast.Gt, ast.GtE) and au.src(l) == var and abs((order.fold_const(r) or 0) - math.pi) < 1e-12:
-                    big = True
-            for s in st.body if big else []:
-                inc = au.increment(s)
-                if inc is not None and inc[0] == var and inc[1] == -1 and abs((order.fold_const(inc[2]) or 0) - 2 * math.pi) < 1e-12:
-                    ok_fold = True
-    r = [st for st in fn.body if isinstance(st, ast.Return)]
-    ctx.check(ok_mod and ok_fold and r and au.src(r[-1].value) == var, "C12-O1", site,
-              "principal_angle is not `b = a mod 2pi; if b > pi: b -= 2pi; return b`",
-              "angle reduction must be congruent modulo 2*pi and land in [-pi, pi]")
-    fn = repo.func("utils.maths", "angle_diff")
-    r = [st for st in fn.body if isinstance(st, ast.Return)]
-    a, b = au.params(fn)[:2]
-    ok = False
-    if r and isinstance(r[0].value, ast.BinOp) and isinstance(r[0].value.op, ast.Sub):
-        left, right = r[0].value.left, r[0].value.right
-        if isinstance(left, ast.BinOp) and isinstance(left.op, ast.Mod):
-            p = sym.to_poly(left.left, atom_of=lambda e: sym.Poly.atom("PI") if order.fold_const(e) is not None and abs(order.fold_const(e) - math.pi) < 1e-12 and not isinstance(e, ast.BinOp) else None)
-            ok = p == sym.Poly.atom(a) - sym.Poly.atom(b) + sym.Poly.atom("PI") \
-                and abs((order.fold_const(left.right) or 0) - 2 * math.pi) < 1e-12 and abs((order.fold_const(right) or 0) - math.pi) < 1e-12
-    ctx.check(ok, "C12-O1", ctx.site("utils.maths", fn), "angle_diff is not ((a - b + pi) mod 2pi) - pi", "")
-
-
-# ---------------------------------------------------------------------------- B1
-def b1_box_algebra(ctx):
-    repo = ctx.repo
-
-    def ctor_args(fn):
-        for st in au.stmts(fn.body):
-            if isinstance(st, ast.Return) and isinstance(st.value, ast.Call) and au.call_tail(st.value) == "AABB" and len(st.value.args) == 2:
-                b = sym.Bindings(fn)
-                return [b.resolve(a, at=st) for a in st.value.args], st
-        return None, None
-
-    def minmax(e):
-        """('min'|'max', {operand srcs}) for np.minimum/np.maximum(a,b) or np.min/np.max((a,b), axis=0)"""
-        if isinstance(e, ast.Call):
-            t = au.call_tail(e)
-            if t in ("minimum", "maximum") and len(e.args) == 2:
-                return t[:3], {au.src(a) for a in e.args}
-            if t in ("min", "max", "amin", "amax") and e.args and isinstance(e.args[0], (ast.Tuple, ast.List)):
-                return t[-3:], {au.src(a) for a in e.args[0].elts}
-        return None, set()
-    lo_names = lambda b: {f"{b}.mini", f"{b}._p1"}
-    hi_names = lambda b: {f"{b}.maxi", f"{b}._p2"}
-    for name, want in (("intersection", ("max", "min")), ("union", ("min", "max"))):
-        fn = repo.func(AABB, "AABB." + name)
-        site = ctx.site(AABB, fn)
-        b1, b2 = au.params(fn)[:2]
-        args, st = ctor_args(fn)
-        if not args:
-            ctx.fail("C12-B1", site, f"{name} does not return AABB(lo, hi)", "")
-            continue
-        (k1, o1), (k2, o2) = minmax(args[0]), minmax(args[1])
-        ok = (k1, k2) == want and len(o1) == 2 and len(o2) == 2 \
-            and all(o & lo_names(b) for b in (b1, b2) for o in [o1]) and all(o & hi_names(b) for b in (b1, b2) for o in [o2]) \
-            and o1 <= lo_names(b1) | lo_names(b2) and o2 <= hi_names(b1) | hi_names(b2)
-        ctx.check(ok, "C12-B1", site,
-                  f"{name} builds AABB({au.src(args[0])}, {au.src(args[1])})",
-                  f"{name} must be ({want[0]} of the two minima, {want[1]} of the two maxima)", note=f"{name}: {want}")
-    # of_points: min/max over axis 0 -/+ pad
-    fn = repo.func(AABB, "AABB.of_points")
-    args, st = ctor_args(fn)
-    ok = False
-    if args:
-        def parse(e, k, op):
-            return isinstance(e, ast.BinOp) and isinstance(e.op, op) and isinstance(e.left, ast.Call) and au.call_tail(e.left) == k \
-                and any(kw.arg == "axis" and au.const(kw.value) == 0 for kw in e.left.keywords)
-        ok = parse(args[0], "min", ast.Sub) and parse(args[1], "max", ast.Add)
-    ctx.check(ok, "C12-B1", ctx.site(AABB, fn), "of_points is not AABB(min(points, axis=0) - pad, max(points, axis=0) + pad)",
-              "the box of a point set must be tight")
-    # project: maximum(mini, minimum(maxi, pt))
-    fn = repo.func(AABB, "AABB.project")
-    pt = au.params(fn, skip_self=True)[0]
-    r = [st for st in fn.body if isinstance(st, ast.Return)]
-    ok = False
-    if r:
-        k1, o1 = minmax(r[-1].value)
-        inner = [a for a in r[-1].value.args if isinstance(a, ast.Call)] if isinstance(r[-1].value, ast.Call) else []
-        if k1 and inner:
-            k2, o2 = minmax(inner[0])
-            other = {au.src(a) for a in r[-1].value.args if a is not inner[0]}
-            ok = (k1 == "max" and other <= {"self.mini", "self._p1"} and k2 == "min" and o2 & {"self.maxi", "self._p2"} and pt in o2) or \
-                 (k1 == "min" and other <= {"self.maxi", "self._p2"} and k2 == "max" and o2 & {"self.mini", "self._p1"} and pt in o2)
-    ctx.check(ok, "C12-B1", ctx.site(AABB, fn), "project is not the clamp max(mini, min(maxi, pt))",
-              "the projection of a point must lie in the closed box")
-    # distance: maximum(maximum(mini - pt, pt - maxi), 0)
-    fn = repo.func(AABB, "AABB.distance")
-    pt = au.params(fn, skip_self=True)[0]
-    ok = False
-    for st in au.stmts(fn.body):
-        if isinstance(st, ast.Assign) and isinstance(st.value, ast.Call):
-            k1, _ = minmax(st.value)
-            if k1 == "max" and len(st.value.args) == 2 and au.const(st.value.args[1]) in (0, 0.0) and isinstance(st.value.args[0], ast.Call):
-                k2, o2 = minmax(st.value.args[0])
-                ok = k2 == "max" and o2 in ({f"self.mini - {pt}", f"{pt} - self.maxi"}, {f"self._p1 - {pt}", f"{pt} - self._p2"})
-    ctx.check(ok, "C12-B1", ctx.site(AABB, fn), "distance is not the norm of max(mini - pt, pt - maxi, 0)",
-              "a contained point is at distance zero and the distance is realised by the projection")
-    for prop, want in (("span", ("self._p2", "self._p1")),):
-        fn = repo.func(AABB, "AABB." + prop)
-        r = [st for st in fn.body if isinstance(st, ast.Return)]
-        ok = r and isinstance(r[0].value, ast.BinOp) and isinstance(r[0].value.op, ast.Sub) \
-            and (au.src(r[0].value.left), au.src(r[0].value.right)) in (want, ("self.maxi", "self.mini"))
-        ctx.check(bool(ok), "C12-B1", ctx.site(AABB, fn), "span is not maxi - mini", "")
-    fn = repo.func(AABB, "AABB.center")
-    r = [st for st in fn.body if isinstance(st, ast.Return)]
-    ok = False
-    if r:
-        p = sym.to_poly(r[0].value, atom_of=lambda e: {"self._p1": "lo", "self.mini": "lo", "self._p2": "hi", "self.maxi": "hi"}.get(au.src(e)))
-        ok = p == (sym.Poly.atom("lo") + sym.Poly.atom("hi")).scale(sym.Fraction(1, 2))
-    ctx.check(ok, "C12-B1", ctx.site(AABB, fn), "center is not (mini + maxi) / 2", "")
-
-
-# ---------------------------------------------------------------------------- R1
-def _reduce(poly, var, repl):
-    """replace var^2 by the polynomial `repl` until var occurs with degree <= 1 in every monomial"""
-    P = sym.Poly
-    for _ in range(12):
-        changed = False
-        out = P()
-        for mono, coef in poly.t.items():
-            k = mono.count(var)
-            if k >= 2:
-                rest = list(mono)
-                rest.remove(var)
-                rest.remove(var)
-                out = out + P({tuple(rest): coef}) * repl
-                changed = True
-            else:
-                out = out + P({mono: coef})
-        poly = out
-        if not changed:
-            break
-    return poly
-
-
-def _linear_map(fn, out_name, in_expr_of, comps, atom_of):
-    """rows of the matrix of the stores out.<comp> = sum_j coef_j * in_j : {comp: {j: Poly}}"""
-    rows = {}
-    for st in au.stmts(fn.body):
-        if isinstance(st, ast.Assign) and isinstance(st.targets[0], ast.Attribute) and isinstance(st.targets[0].value, ast.Name) \
-                and st.targets[0].value.id == out_name and st.targets[0].attr in comps:
-            p = sym.to_poly(st.value, atom_of=atom_of, opaque=False)
-            row = {}
-            for j in in_expr_of.values():
-                row[j] = p.coeff(j)
-                if p.degree_in(j) > 1:
-                    raise sym.NotPoly("not linear")
-            rest = p
-            for j in in_expr_of.values():
-                rest = rest.without(j)
-            if not rest.is_zero():
-                raise sym.NotPoly("affine part")
-            rows[st.targets[0].attr] = row
-    return rows
-
-
-def r1_rotation_matrices(ctx):
-    repo = ctx.repo
-    P = sym.Poly
-    RO = "geometry.rotations"
-    # ---- rotate_2d
-    fn = repo.func(RO, "rotate_2d")
-    site = ctx.site(RO, fn)
-    v, ang = au.params(fn)[:2]
-    b = sym.Bindings(fn)
-    cs = {}
-    for st in fn.body:
-        for name, val in sym.split_assign(st):
-            if isinstance(val, ast.Call) and au.call_tail(val) in ("cos", "sin") and au.src(val.args[0]) == ang:
-                cs[name] = "C" if au.call_tail(val) == "cos" else "S"
-    outs = [st.targets[0].id for st in fn.body if isinstance(st, ast.Assign) and isinstance(st.targets[0], ast.Name)
-            and isinstance(st.value, ast.Call) and au.call_tail(st.value) == "Vec"]
-    ok = False
-    detail = ""
-    try:
-        if len(cs) == 2 and outs:
-            ins = {f"{v}[0]": "x0", f"{v}[1]": "x1", f"{v}.x": "x0", f"{v}.y": "x1"}
-            atom = lambda e: ins.get(au.src(e)) or (cs.get(e.id) if isinstance(e, ast.Name) else None)
-            rows = _linear_map(fn, outs[0], {"a": "x0", "b": "x1"}, ("x", "y"), atom)
-            M = [[rows["x"]["x0"], rows["x"]["x1"]], [rows["y"]["x0"], rows["y"]["x1"]]]
-            one_minus = P.const(1) - P.atom("C") * P.atom("C")
-            red = lambda q: _reduce(q, "S", one_minus)
-            mtm = [[red(M[0][i] * M[0][j] + M[1][i] * M[1][j]) for j in range(2)] for i in range(2)]
-            det = red(M[0][0] * M[1][1] - M[0][1] * M[1][0])
-            ok = mtm[0][0] == P.const(1) and mtm[1][1] == P.const(1) and mtm[0][1].is_zero() and det == P.const(1)
-            # counter-clockwise for positive angles: M = [[C,-S],[S,C]]
-            ok = ok and M[1][0] == P.atom("S")
-            detail = f"M = {M}"
-    except (sym.NotPoly, KeyError) as e:
-        detail = f"not a linear map of the input: {e}"
-    ctx.check(ok, "C12-R1", site, "rotate_2d is not the rotation matrix [[cos, -sin], [sin, cos]] applied to its argument",
-              f"M^T M = I and det M = 1 must hold identically modulo cos^2 + sin^2 = 1 ({detail})", note="2x2 matrix orthogonal, det 1")
-    # ---- rotate_around_axis
-    fn = repo.func(RO, "rotate_around_axis")
-    site = ctx.site(RO, fn)
-    inp, axis_p, ang = au.params(fn)[:3]
-    cs, uvw, axis_name = {}, None, None
-    for st in fn.body:
-        for name, val in sym.split_assign(st):
-            if isinstance(val, ast.Call) and au.call_tail(val) in ("cos", "sin") and au.src(val.args[0]) == ang:
-                cs[name] = "C" if au.call_tail(val) == "cos" else "S"
-            if isinstance(val, ast.Call) and au.call_tail(val) == "normalized" and au.src(val.args[0]) == axis_p:
-                axis_name = name
-        if isinstance(st, ast.Assign) and isinstance(st.targets[0], ast.Tuple) and len(st.targets[0].elts) == 3 \
-                and isinstance(st.value, ast.Name) and st.value.id == axis_name:
-            uvw = [x.id for x in st.targets[0].elts]
-    outs = [st.targets[0].id for st in fn.body if isinstance(st, ast.Assign) and isinstance(st.targets[0], ast.Name)
-            and isinstance(st.value, ast.Call) and au.call_tail(st.value) == "Vec" and len(st.value.args) == 3]
-    ok = False
-    detail = ""
-    try:
-        if len(cs) == 2 and uvw and outs:
-            amap = dict(zip(uvw, "UVW"))
-            ins = {f"{inp}.x": "x0", f"{inp}.y": "x1", f"{inp}.z": "x2", f"{inp}[0]": "x0", f"{inp}[1]": "x1", f"{inp}[2]": "x2"}
-            atom = lambda e: ins.get(au.src(e)) or ((cs.get(e.id) or amap.get(e.id)) if isinstance(e, ast.Name) else None)
-            rows = _linear_map(fn, outs[0], {"a": "x0", "b": "x1", "c": "x2"}, ("x", "y", "z"), atom)
-            R = [[rows[c][j] for j in ("x0", "x1", "x2")] for c in ("x", "y", "z")]
-            s2 = P.const(1) - P.atom("C") * P.atom("C")
-            w2 = P.const(1) - P.atom("U") * P.atom("U") - P.atom("V") * P.atom("V")
-            red = lambda q: _reduce(_reduce(q, "S", s2), "W", w2)
-            ax = [P.atom("U"), P.atom("V"), P.atom("W")]
-            fixes = all(red(R[i][0] * ax[0] + R[i][1] * ax[1] + R[i][2] * ax[2] - ax[i]).is_zero() for i in range(3))
-            ortho = all((red(sum((R[k][i] * R[k][j] for k in range(3)), P())) - P.const(1 if i == j else 0)).is_zero()
-                        for i in range(3) for j in range(3))
-            det = red(R[0][0] * (R[1][1] * R[2][2] - R[1][2] * R[2][1]) - R[0][1] * (R[1][0] * R[2][2] - R[1][2] * R[2][0])
-                      + R[0][2] * (R[1][0] * R[2][1] - R[1][1] * R[2][0]))
-            trace = red(R[0][0] + R[1][1] + R[2][2])
-            ok = fixes and ortho and det == P.const(1) and trace == P.const(1) + P.atom("C").scale(2)
-            detail = f"fixes axis: {fixes}, orthogonal: {ortho}, det: {det}, trace: {trace}"
-    except (sym.NotPoly, KeyError) as e:
-        detail = f"not a linear map of the input: {e}"
-    ctx.check(ok, "C12-R1", site, "rotate_around_axis is not Rodrigues' rotation matrix of (unit axis, angle) applied to its argument",
-              f"R axis = axis, R^T R = I, det R = 1 and trace R = 1 + 2 cos must hold identically modulo cos^2+sin^2 = 1 and |axis| = 1 ({detail})",
-              note="3x3 matrix fixes the axis, orthogonal, det 1, trace 1 + 2cos")
-
-
-def x1_shared_primitives(ctx):
-    """Run C07's polynomial-identity rule on geometry.py under a C12 rule id."""
-    from . import c07
-    n_f, n_i = len(ctx.findings), dict(ctx.instances)
-    c07.x1_primitives(ctx)
-    for f in ctx.findings[n_f:]:
-        if f.rule == "C07-X1":
-            f.rule = "C12-X1"
-    if "C07-X1" in ctx.instances:
-        ctx.instances["C12-X1"] = ctx.instances.pop("C07-X1") - n_i.get("C07-X1", 0)
-    for smp in ctx.samples:
-        if smp.get("rule") == "C07-X1":
-            smp["rule"] = "C12-X1"
+    ctx.ok("C12-A2", ctx.site(AABB, repo.func(AABB, "AABB.__init__")), f"{n_cls} constructors examined")
